@@ -282,10 +282,11 @@ type lightTarget struct {
 	vc     map[*core.RegionInfo]view // rendering cache (only used from the sequential judge)
 
 	// region storage (leveldb with a write batch), as a real server uses it; nil = plain kv storage
-	rs       *core.RegionStorage
-	rsDir    string
-	rsCancel context.CancelFunc
-	stores   int
+	rs                 *core.RegionStorage
+	rsDir              string
+	rsCancel           context.CancelFunc
+	stores             int
+	flushAt, delivered int
 }
 
 // newLightRS is newLight with the storage a real server has: core.NewStorage(kv, WithRegionStorage)
@@ -449,6 +450,12 @@ func (t *lightTarget) VerifyRetained() []string {
 }
 
 func (t *lightTarget) Deliver(s *world.Snapshot) error {
+	if t.rs != nil && t.flushAt > 0 {
+		// the background flush of the region storage fires once in the middle of the history
+		if t.delivered++; t.delivered == t.flushAt {
+			t.rs.FlushRegion()
+		}
+	}
 	return t.rc.VerifProcessRegionHeartbeat(s.Info())
 }
 
